@@ -72,6 +72,27 @@ Strengthening done because of seeded changes (see also section 8):
   returned for 4000 consecutive scheduler steps ends the run as `livelock`,
   which the progress oracle reports (`hang:livelock_after_crash`). Task bodies
   in the workloads are trivial, so such a stretch cannot be useful work.
+* **C01 (mut C01: a level-4 workflow loses part of a permutation when the
+  mapped circuit's final mapping is a 3-cycle).** The random level-4 cases of
+  the quick tier only produced transpositions and identity mappings, for which
+  the changed code is still right. Added a targeted quick case: a cyclic-shift
+  circuit (qudit i -> i+1 mod n through SWAP chains) on a line model at level 4,
+  whose cheapest output is a pure relabelling with a 3-cycle as final mapping;
+  the oracle is unchanged (independent simulator, mapped cost with both
+  permutations).
+* **C02 (mut C02: post-mapping block resynthesis is given the coupling of
+  model qudits [0..k) instead of that of the placed qudits).** On symmetric
+  machines (lines, rings, grids) and identity placements the two coincide, and
+  the random quick cases did not include an asymmetric machine with a
+  non-identity placement at level 3. Added a targeted quick case: 3-qubit
+  entangling circuit, 5-qubit machine 0-1-3-2-0 plus tail 3-4 (greedy placement
+  picks [1,2,3]), level 3; the coupling oracle (every multi-qudit gate on a model
+  edge, computed from the model's edge list, not `is_compatible`) reports
+  `output:uncoupled:circuit`.
+
+All other seeded changes were caught by the quick tier as it stood. What each
+needs in order to manifest is in the table; the catching violation kinds are
+the oracle's own classification (not tuned to the change).
 ''' % '\n'.join(rows)
     p = os.path.join(ROOT, 'DESIGN.md')
     s = open(p).read()
